@@ -12,6 +12,7 @@ import SkNet.Spec.Connectivity
 import SkNet.Lemmas.Connectivity
 import SkNet.Lemmas.BreakCycles
 import SkNet.Lemmas.Bipartite
+import SkNet.Lemmas.Reach
 
 namespace SkNet.C12
 open SkNet SkNet.Connectivity SkNet.Cycles
@@ -290,6 +291,63 @@ example : (match isBipartite squareGraph with | .yes _ rows cols => rows == [0, 
 /-- the triangle: answered `False` -/
 example : (match isBipartite ⟨3, 3, fun i => [(i + 1) % 3, (i + 2) % 3], fun i j => if i = j then 0 else 1⟩ with
     | .no => true | _ => false) = true := by rfl
+
+/-! ## is_acyclic -/
+
+/-- the contract of `connected_components(adjacency, directed=True, connection='strong', return_labels=False)`:
+    the number of distinct labels of a labelling by strong components -/
+def IsStrongCount (n : Nat) (adj : Nat → List Nat) (k : Nat) : Prop :=
+  ∃ labels, IsLabelling n adj true labels ∧ k = (npUnique labels).length
+
+/-- ★ `isAcyclic_directed_iff`: for a graph taken as directed (flag `True`, or inferred from an asymmetric matrix),
+    `is_acyclic` answers `True` exactly when the graph has no directed cycle (self-loops included): no self-loop
+    and as many strong components as nodes means that no two distinct nodes are mutually reachable. -/
+theorem isAcyclic_directed_iff (nCC : Bool → Nat) (m : Mat) (directed : Option Bool)
+    (hc : m.Canon) (hsq : m.nRow = m.nCol) (hnn : m.NonNeg)
+    (hd : resolveDirected m directed = .ok true)
+    (hcc : IsStrongCount m.nRow m.adj (nCC true)) :
+    ∃ b, isAcyclic nCC m directed = .ok b ∧ (b = true ↔ ¬ HasCycle m.nRow m.adj) := by
+  have hwf := Canon.wf hc hsq
+  obtain ⟨labels, ⟨hlen, hlab⟩, hk⟩ := hcc
+  unfold isAcyclic
+  simp only [hd]
+  by_cases hl : (selfLoops m).length > 0
+  · simp only [hl, ↓reduceIte]
+    refine ⟨false, rfl, ?_⟩
+    simp only [Bool.false_eq_true, false_iff, Classical.not_not]
+    obtain ⟨i, hi⟩ := List.exists_mem_of_length_pos hl
+    simp only [selfLoops, List.mem_filter, List.mem_range, decide_eq_true_eq] at hi
+    have hmem : i ∈ m.adj i := (hc i i hi.1).mpr ⟨hsq ▸ hi.1, fun h => by rw [h] at hi; exact absurd hi.2 (by decide)⟩
+    exact ⟨i, i, hi.1, hmem, Reach.refl i⟩
+  · simp only [hl, ↓reduceIte]
+    refine ⟨_, rfl, ?_⟩
+    have hnoloop : ∀ u, u < m.nRow → u ∉ m.adj u := by
+      intro u hu hmem
+      apply hl
+      apply List.length_pos_of_mem (a := u)
+      simp only [selfLoops, List.mem_filter, List.mem_range, decide_eq_true_eq]
+      have hne := ((hc u u hu).mp hmem).2
+      have h0 := hnn u u
+      exact ⟨hu, Rat.lt_of_le_of_ne h0 (Ne.symm hne)⟩
+    have hcount : (npUnique labels).length = m.nRow ↔ labels.Nodup := by
+      rw [← hlen]; exact npUnique_length_eq_iff_nodup labels
+    rw [beq_iff_eq, hk, hcount, nodup_iff_getD_inj, not_hasCycle_iff hwf]
+    constructor
+    · intro h
+      refine ⟨hnoloop, fun u v hu hv huv hvu => ?_⟩
+      exact h u v (hlen ▸ hu) (hlen ▸ hv) ((hlab u v hu hv).mpr ⟨huv, hvu⟩)
+    · intro ⟨_, h⟩ u v hu hv he
+      have hu' : u < m.nRow := hlen ▸ hu
+      have hv' : v < m.nRow := hlen ▸ hv
+      obtain ⟨huv, hvu⟩ := (hlab u v hu' hv').mp he
+      exact h u v hu' hv' huv hvu
+
+/-- the directed 3-cycle has one strong component: `is_acyclic` says `False` -/
+example : isAcyclic (fun _ => 1) ⟨3, 3, fun i => [(i + 1) % 3], fun i j => if j = (i + 1) % 3 then 1 else 0⟩ (some true)
+    = .ok false := by rfl
+/-- the path 0 → 1 → 2 has three strong components: `True` -/
+example : isAcyclic (fun _ => 3) ⟨3, 3, fun i => if i < 2 then [i + 1] else [], fun i j => if i < 2 ∧ j = i + 1 then 1 else 0⟩ (some true)
+    = .ok true := by rfl
 
 /-! ## break_cycles -/
 
